@@ -26,3 +26,17 @@ Definition standard_system_dimensions_f (num_boards : Z) : result (Z * Z) :=
     | None => OtherError
     | Some h => let w := k / h in Ok (w * 12, h * 12)
     end).
+
+(* the binary64 model with the budgeted loop (evaluable for board counts far beyond 2^53) *)
+Definition standard_system_dimensions_f_gas (gas : nat) (num_boards : Z) : result (Z * Z) :=
+  if num_boards =? 0 then Ok (0, 0)
+  else if num_boards =? 1 then Ok (8, 8)
+  else if negb (num_boards mod 3 =? 0) then Failed 0
+  else
+    let k := num_boards / 3 in
+    bind (float_isqrt_f k) (fun s =>
+    match first_factor_down_gas k s gas with
+    | None => OutOfFuel
+    | Some None => OtherError
+    | Some (Some h) => let w := k / h in Ok (w * 12, h * 12)
+    end).
